@@ -271,6 +271,41 @@ func c03Tables(run *PropRun) {
 	}`)
 			nOb++
 		}
+		// (1d) ESC immediately followed by a key yields that key with Alt, and the Alt does not spill over to the next key
+		// (through the real driver; two letters that start no ESC sequence of this description)
+		{
+			var letters []byte
+			for ch := byte('z'); ch >= 'a' && len(letters) < 2; ch-- {
+				free := true
+				for _, k := range seqs {
+					if strings.HasPrefix(k, "\x1b"+string(ch)) || k == string(ch) {
+						free = false
+					}
+				}
+				if free {
+					letters = append(letters, ch)
+				}
+			}
+			if len(letters) == 2 {
+				krune := e.constInt(modPath, "KeyRune")
+				altM := e.constInt(modPath, "ModAlt")
+				in := "\x1b" + string(letters[0]) + string(letters[1])
+				evs, why := decodeDriver(db, fs, tp, in)
+				ok := why == "" && len(evs) == 2 && evs[0].Key == krune && evs[0].Mod == altM && evs[1].Key == krune && evs[1].Mod == 0
+				g := run.AddObligation(fmt.Sprintf("keytable[%s]/alt-rune-then-plain", te.Name), "table", BoolT(ok),
+					fmt.Sprintf("ESC %c %c through the real driver is Alt+%c followed by an unmodified %c (got %v %s)", letters[0], letters[1], letters[0], letters[1], evs, why))
+				g.ReplayGo = replayKeyTableImports(te.Name, []string{"bytes"}, fmt.Sprintf(`
+	s.cells.Resize(80, 24)
+	evs := s.collectEventsFromInput(bytes.NewBufferString(%q), false)
+	if len(evs) != 2 { fail("%%q produced %%d events", %q, len(evs)); return }
+	k0, ok0 := evs[0].(*EventKey)
+	k1, ok1 := evs[1].(*EventKey)
+	if !ok0 || !ok1 || k0.Key() != KeyRune || k0.Modifiers() != ModAlt || k1.Key() != KeyRune || k1.Modifiers() != ModNone {
+		fail("%%q decoded to %%v, %%v: want Alt+rune then the plain rune", %q, evs[0], evs[1]); return
+	}`, in, in, in))
+				nOb++
+			}
+		}
 		// (2) every key capability of the description is in the table with a key the description assigns to it
 		for i := 0; i < db.TI.NumFields(); i++ {
 			fname := db.TI.Field(i).Name()
